@@ -11,7 +11,7 @@ Frames(a) == [t \in DOMAIN a |-> [i \in DOMAIN a[t] |-> V3o(a[t][i])]]
 Expected(e) ==
   LET cen == Frames(e.cen)  sat == Frames(e.sat)
       bonds == Bonds(e.G, e.N, e.R, cen, sat)
-      cart == [t \in DOMAIN bonds |-> [b \in DOMAIN bonds[t] |-> <<e.scale * bonds[t][b][1], e.scale * bonds[t][b][2], e.scale * bonds[t][b][3]>>]]
+      cart == [t \in DOMAIN bonds |-> [b \in DOMAIN bonds[t] |-> <<e.scale[1] * bonds[t][b][1], e.scale[2] * bonds[t][b][2], e.scale[3] * bonds[t][b][3]>>]]
   IN [pairs |-> BondPairs(e.G, e.N, e.R, cen[1], sat[1]),
       bonds |-> bonds,
       lensq |-> LenSq(e.G, bonds),
